@@ -4205,6 +4205,30 @@ def copy_model(P, R):
                     after(f, what, src0, src, tgt0, tgt, text, tnames,
                           [(u, x.attrs.get('node'))
                            for u, x in zip(rs, got)])
+        # a target that lacks a variable of the function (and has
+        # another one on that level): there is nothing right to return
+        rows_e = list(itertools.product((False, True), repeat=3))
+        t4, e4 = _build_manager(['a', 'e', 'c'], [], [])
+        for u in refs[2:]:
+            t_u = _tt_of(src0, u, names)
+            if not any(t_u[i] != t_u[rows.index((r[0], not r[1], r[2]))]
+                       for i, r in enumerate(rows)):
+                continue   # does not depend on b
+            for f in (cb, meth):
+                n += 1
+                src, tgt = fresh(src0), fresh(t4)
+                ps = [p for p in f.params if p != 'self']
+                if f is meth:
+                    env = {'self': src, ps[0]: u, ps[1]: tgt}
+                else:
+                    env = {ps[0]: u, ps[1]: src, ps[2]: tgt}
+                out, _ = interp.run_function(f.node, env, stubs, res_b)
+                if out[0] != 'raise':
+                    problems.setdefault((f, 'missing-variable'), (
+                        f'{f.name}({u}) from nodes {src0["self._succ"]} '
+                        'over a, b, c into a manager with the variables '
+                        f'a, e, c returns {out[1]!r}: the function depends '
+                        'on b, which the target does not have'))
     except (interp.Unknown, KeyError) as e:
         R.undecided('R-DOMAIN', 'copy between managers', 'copy model',
                     str(e))
@@ -4834,6 +4858,78 @@ def r_operator_str(P, R):
     if n is not None:
         R.floor('R-FORMAT handles of the reference text model', n, 5)
 r_operator_str.NAME = 'R-FORMAT(reference text model)'
+
+
+def manager_copy_model(P, R):
+    """`BDD.__copy__` interpreted (with the constructor it calls) on
+    managers that hold nodes.  The clone has the same variables, levels,
+    nodes, unique table, counts, next free number and roots as the
+    original - so that it is reduced and consistent and finds every node
+    it holds - in containers of its own; the original is untouched."""
+    import itertools
+    f = P.func('dd.bdd.BDD.__copy__', required=False)
+    if f is None:
+        return None
+    stubs = ClassStubs(P, 'dd.bdd.BDD', extra={
+        '_request_reordering': lambda m, c, a, k: None})
+    resolver = interp.ModuleEnv(P, 'dd.bdd', stubs)
+    rows = list(itertools.product((False, True), repeat=3))
+    tts = [tuple(bool(a and not b) for a, b, c in rows),
+           tuple(bool(b if a else c) for a, b, c in rows)]
+    problems = dict()
+    n = 0
+    try:
+        for order, tables in ((['a', 'b', 'c'], tts), (['c', 'a', 'b'], tts),
+                              (['a'], []), ([], [])):
+            n += 1
+            base, ext = _build_manager(order, tables, range(len(tables)))
+            obj = _object_manager(copy.deepcopy(
+                {k: v for k, v in base.items() if k != 'self'}))
+            obj.attrs['roots'] = set(ext)
+            before = copy.deepcopy(obj.attrs)
+            out, _ = interp.run_function(
+                f.node, {'self': obj}, stubs, resolver)
+            what = f'variables {order}, nodes {base["self._succ"]}'
+            r = out[1]
+            if out[0] != 'return' or not isinstance(r, interp.Sym) or \
+                    not isinstance(r.attrs, dict) or r is obj:
+                problems.setdefault('raises', (
+                    f'{what}: {out[0]} {out[1]!r}'))
+                continue
+            for k in ('vars', '_level_to_var', '_succ', '_pred', '_ref',
+                      '_min_free', 'roots', 'max_nodes'):
+                if r.attrs.get(k) != before[k]:
+                    problems.setdefault('differs', (
+                        f'{what}: the clone has {k} = {r.attrs.get(k)!r}, '
+                        f'the original {before[k]!r}'))
+                    break
+                if isinstance(before[k], (dict, set)) and \
+                        r.attrs.get(k) is obj.attrs[k]:
+                    problems.setdefault('shared', (
+                        f'{what}: the clone shares the container {k} '
+                        'with the original'))
+                    break
+            if obj.attrs != before:
+                problems.setdefault('original-changed', (
+                    f'{what}: the original changed'))
+    except (interp.Unknown, KeyError) as e:
+        R.undecided('R-INVMAP', f.qualname, 'clone model', str(e))
+        return None
+    for sub, msg in sorted(problems.items()):
+        R.violation('R-INVMAP', f'clone-{sub}', f.qualname, '__copy__',
+                    msg, unit=f.unit.rel, line=f.lineno)
+    if not problems:
+        R.holds('R-INVMAP', f.qualname,
+                f'clone model ({n} managers): every table of the original '
+                'in a container of its own; the original untouched')
+    return n
+
+
+def r_manager_copy(P, R):
+    n = manager_copy_model(P, R)
+    if n is not None:
+        R.floor('R-INVMAP managers of the clone model', n, 4)
+r_manager_copy.NAME = 'R-INVMAP(clone model)'
 
 
 def dot_model(P, R):
